@@ -10,9 +10,9 @@ git -C /repo archive HEAD | tar -x -C "$d"
 if [ "${WITH_PROOF:-0}" = "1" ]; then
   # full run incl. layer P: needs its own copy of the Coq sources (Gen/*.v is regenerated from the seeded tree)
   mkdir -p "$d/_coq" && rsync -a --include='*/' --include='*.v' --include='_CoqProject' --exclude='*' --exclude='Gen/*.v' /verif/coq/ "$d/_coq/" && rm -f "$d/_coq/Gen/"*.v
-  cd /verif && VERIF_REPO="$d" VERIF_OUT="$d/_out" VERIF_BUILD="$d/_build" VERIF_COQ="$d/_coq" ./check "$cid" "$@" 2>&1 | tail -8
+  cd /verif && VERIF_REPO="$d" VERIF_OUT="$d/_out" VERIF_BUILD="$d/_build" VERIF_COQ="$d/_coq" ./check "$cid" "$@" 2>&1 | tail -60
 else
-  cd /verif && VERIF_REPO="$d" VERIF_OUT="$d/_out" VERIF_BUILD="$d/_build" ./check "$cid" --no-proof "$@" 2>&1 | tail -6
+  cd /verif && VERIF_REPO="$d" VERIF_OUT="$d/_out" VERIF_BUILD="$d/_build" ./check "$cid" --no-proof "$@" 2>&1 | tail -60
 fi
 rc=${PIPESTATUS[0]}
 rm -rf "$d"
